@@ -129,6 +129,7 @@ type analyzerState struct {
 	w           *world
 	nextLearner int
 	sel         int
+	dur         int // expected duration class of the next Select (0..3)
 	bg          int // -1: none
 	retry       bool
 	selectors   int
@@ -160,7 +161,7 @@ func (s *selector) Select(sizeClasses []uint32) (int, time.Duration, time.Durati
 	}
 	l := s.a.newLearner()
 	s.a.w.event("an", fmt.Sprintf("an sel select l=%d", l.tok))
-	return idx, time.Duration(10+idx) * time.Second, time.Hour, l
+	return idx, time.Duration(10+idx+3*s.a.dur) * time.Second, time.Hour, l
 }
 
 func (s *selector) Abandoned() {
